@@ -192,5 +192,5 @@ func makeGuardC15(r *prog.Runner) prog.Guard {
 	if envInt("VERIF_NO_EXCLUSIONS", 0) != 0 || os.Getenv("VERIF_NO_EXCLUSIONS") != "" {
 		return func(d *document.Document, s prog.Step) (prog.Step, string) { return s, "" }
 	}
-	return prog.GuardF33(r)
+	return prog.Chain(prog.GuardF49Anchors(r), prog.GuardF33(r))
 }
